@@ -359,6 +359,9 @@ def _e2e_2d(N, M, c, k):
     f = lambda i, j: i * 10 + j - k
     for dt in (None, int):
         _cmp(f"fromfunction({tag}, dtype={dt})", da.fromfunction(f, shape=(N, M), chunks=(c, c2), dtype=dt), np.fromfunction(f, (N, M), dtype=dt or float))
+    # functions that do NOT combine all coordinate arrays (each coordinate array must already have the full block shape)
+    for nm, g in (("i only", lambda i, j: i * 3 - k), ("j only", lambda i, j: j + k), ("shape of i", lambda i, j: np.full(i.shape, 7) + 0 * j.shape[0])):
+        _cmp(f"fromfunction({tag}, {nm})", da.fromfunction(g, shape=(N, M), chunks=(c, c2), dtype=int), np.fromfunction(g, (N, M), dtype=int))
     _cmp(f"tri({tag}, k={k})", da.tri(N, M, k, chunks=(c, c2)), np.tri(N, M, k))
 
 
